@@ -168,14 +168,93 @@ fn gen_for_reducts(r: &mut Rng, idx: u64) -> crate::gen_prog::Program {
     }
 }
 
+// (4): a hole-free well-typed term against a structural edit of it that R-core still accepts at
+// the same type (so the pair is within the statement of the property)
+pub fn check_edited_pair(ctx: &mut Ctx, src: &str, r: &mut Rng) {
+    let o = observe(src, &[], &Opts::check_only());
+    if !matches!(o.front, Front::Accepted) {
+        return;
+    }
+    let Some(a) = o.elab.map(|e| e.zonk()).filter(|e| !e.has_hole()) else { return };
+    for _ in 0..4 {
+        let tt = std::time::Instant::now();
+        let Some((b, kind)) = crate::emut::edit(&a, r) else { continue };
+        if ctx.replay_mode {
+            println!("edit {kind} took {:?}", tt.elapsed());
+        }
+        if crate::emut::max_free(&b, 0).is_some() {
+            ctx.count("edit-discarded:not-closed");
+            continue;
+        }
+        let nbe = Nbe::new(NBE_FUEL);
+        let (ja, jb) = match (crate::typed::rcore_infer(&nbe, &a), crate::typed::rcore_infer(&nbe, &b)) {
+            (Ok(x), Ok(y)) => (x, y),
+            _ => {
+                ctx.count("edit-discarded:ill-typed");
+                continue;
+            }
+        };
+        if ctx.replay_mode {
+            println!("reference inference took {:?}", tt.elapsed());
+        }
+        if !matches!(nbe.conv(&ja.ty, &jb.ty), Ok(true)) {
+            ctx.count("edit-discarded:different-type");
+            continue;
+        }
+        // the reference goes first: if it cannot normalise both terms within its fuel (an edit can
+        // create a diverging definition cycle) gram is not asked either
+        let (va, vb) = match (nbe.eval(&ja.term, &crate::core::Env::empty()), nbe.eval(&jb.term, &crate::core::Env::empty())) {
+            (Ok(x), Ok(y)) => (x, y),
+            _ => {
+                ctx.count("edit-discarded:reference-fuel");
+                continue;
+            }
+        };
+        let Ok(eq) = normal_forms_equal(&nbe, &va, &vb) else {
+            ctx.count("edit-discarded:reference-fuel");
+            continue;
+        };
+        if ctx.replay_mode {
+            println!("reference normal forms took {:?}", tt.elapsed());
+        }
+        ctx.eval();
+        ctx.count(&format!("edit:{kind}"));
+        let both = format!("{}\n-- versus ({kind}) --\n{}", clip(&a.show(), 1200), clip(&b.show(), 1200));
+        if ctx.replay_mode {
+            println!("PAIR {both}");
+        }
+        let t0 = std::time::Instant::now();
+        let (ab, ba) = match (gram_unify(&a, &b), gram_unify(&b, &a)) {
+            (Ok(x), Ok(y)) => (x, y),
+            (Err(p), _) | (_, Err(p)) => {
+                viol(ctx, &format!("unify-panic@{}", panic_site(&p)), &p, &both);
+                return;
+            }
+        };
+        if ctx.replay_mode {
+            println!("gram unify took {:?}", t0.elapsed());
+        }
+        ctx.nontrivial(hash_str(&both));
+        if ab != ba {
+            viol(ctx, "not-symmetric", &format!("unify(a, b) = {ab} but unify(b, a) = {ba}"), &both);
+            return;
+        }
+        ctx.count(&format!("edited:unify={ab}/normal-forms-equal={eq}"));
+        if eq != ab {
+            viol(ctx, "unify-disagrees-with-normal-forms", &format!("after `{kind}` unify says {ab} but the normal forms are {}", if eq { "equal" } else { "different" }), &both);
+            return;
+        }
+    }
+}
+
 impl Prop for C06P {
     fn id(&self) -> &'static str {
         "C06"
     }
     fn plan(&self, tier: Tier, _seed: u64) -> Plan {
         let mut p = Plan::new(
-            vec![sec("pinned", 200), sec("programs-and-reducts", tier.pick(10_000, 200_000)), sec("pairs-of-same-type", tier.pick(8_000, 160_000))],
-            "generated explicit programs of ground and function type (strongly normalising by construction): unify(t, t); unify of t with each of its first 30 reducts on the evaluation trace, in both directions; normalize_weak_head of ground programs against the evaluated literal; pairs of independently generated terms of the same type, and pairs (t, perturbed t): unify(a, b) = unify(b, a) = equality of the reference's normal forms; non-trivial = distinct hole-free accepted program or pair",
+            vec![sec("pinned", 200), sec("programs-and-reducts", tier.pick(10_000, 200_000)), sec("pairs-of-same-type", tier.pick(8_000, 160_000)), sec("edited-pairs", tier.pick(8_000, 160_000))],
+            "generated explicit programs of ground and function type (strongly normalising by construction): unify(t, t); unify of t with each of its first 30 reducts on the evaluation trace, in both directions; normalize_weak_head of ground programs against the evaluated literal; pairs of independently generated terms of the same type, pairs (t, perturbed t) and pairs (t, structurally edited t: tweaked literal, flipped boolean, dropped/swapped/duplicated definitions of a group, swapped branches or operands; kept when R-core accepts the edit at the same type): unify(a, b) = unify(b, a) = equality of the reference's normal forms; non-trivial = distinct hole-free accepted program or pair",
         );
         p.assumptions = vec![
             "hole-free terms only: elaborated terms with solved holes followed; terms with residual holes are skipped".into(),
@@ -202,6 +281,13 @@ impl Prop for C06P {
                 let p = gen_for_reducts(&mut r, idx);
                 let src = print(&p.h, &Style::varied(&mut r), idx).text;
                 check_program(ctx, &src);
+            }
+            "edited-pairs" => {
+                let mut r = Rng::for_case(ctx.seed, 3, idx);
+                // no recursive definitions: an edit can turn a terminating recursion into a diverging one
+                let p = gen_for_reducts(&mut r, 1);
+                let src = print(&p.h, &Style::plain(), 0).text;
+                check_edited_pair(ctx, &src, &mut r);
             }
             "pairs-of-same-type" => {
                 let mut r = Rng::for_case(ctx.seed, 2, idx);
